@@ -102,3 +102,5 @@
 ; go/types facts used by the optimiser's side conditions (abstract)
 (declare-fun objectOf (Ref) Iface)
 (declare-fun TypesIdentical (Iface Iface) Bool)
+; the callee expression is a method value x.m whose receiver x is evaluated when the expression is (ghost, C07/C13 side condition)
+(declare-fun BindsReceiverEarly (Iface) Bool)
